@@ -21,7 +21,7 @@ from tools.gen import luagen
 LEVEL = "proof"
 MANIFEST = dict(
     category="proof",
-    text="Lean 4 theorems (33, no hypotheses on size) over a hand model of wrapl.Wrapl.wrap_function/do_function/wrap_functions "
+    text="Lean 4 theorems (39, no hypotheses on size) over a hand model of wrapl.Wrapl.wrap_function/do_function/wrap_functions "
          "(all_calls = one call per overload and per omitted-default prefix, by_count, the emitted switch/if-chain with its lua_type "
          "tests, pop indices, object index, result counts, luaL_Reg tables) and of what the emitted skeleton does on a Lua stack. "
          "dispatch_correct: for EVERY Lua name (one signature or many; free function, constructor, method, destructor), every "
@@ -33,6 +33,11 @@ MANIFEST = dict(
          "called and no fall-through to a later overload (wrong_class_argument_is_an_error); whether a parameter is defaulted "
          "does not depend on the default's value (hasInit; 0, 0.0, false and \"\" are generated). Registration: every ast.name is gathered into one group/C function/table entry (groups_*), a Lua name reaches "
          "its own C function iff names in the table are distinct, otherwise the later entry wins (lookupReg_*, classRegs_reaches); "
+         "metatable identity by NAME per site (luaL_newmetatable in luaopen for every wrapped class incl. classes with an empty "
+         "method table, luaL_getmetatable in constructors, luaL_checkudata of the object and of class-pointer arguments): one name "
+         "per class at all sites, so a constructed object is accepted by its own methods and wherever its class is an argument, "
+         "rejected under any other name, and a name nobody created is accepted nowhere (registry_complete, constructed_accepted_*, "
+         "constructed_rejected_by_other_name, uncreated_name_accepted_nowhere, method_on_constructed_named); "
          "objects: a constructor's userdata passes the object test of its own class only (method_on_constructed / "
          "method_on_foreign_object), any number of __gc calls runs the destructor once (gc_runs_destructor_once). No _partial "
          "statement is left; *_before_fix / old_* theorems are negation witnesses for the bodies written before the fix: commits.",
@@ -40,13 +45,17 @@ MANIFEST = dict(
     note="Ties, every run: (T) typemap LUA_type/LUA_pop/LUA_push and the lua_statements rows of the admitted subset; (D1) the "
          "dispatch skeleton of every Lua name parsed from the text the real Wrapl emits (case labels, if-chains, tested indices and "
          "tags, pop index per call argument, object index, result counts, else/default luaL_error, dtor body) == Lean `gen`; (D2) "
-         "the luaL_Reg tables parsed from the text == Lean moduleRegs/classRegs computed from Shroud's JSON dump; (D3) the outcome of "
+         "the luaL_Reg tables parsed from the text == Lean moduleRegs/classRegs computed from Shroud's JSON dump, and the metatable "
+         "name at every site of the text (created / attached / demanded / demanded of an argument) == the model's, computed from the "
+         "class node's LUA_metadata; (D3) the outcome of "
          "the compiled binding on the emulator == Lean `run`. Oracle (no model): the binding compiled with g++ against "
          "tools/ccheck/luaemu and an instrumented library, called with every offered signature (every arity from the first default "
          "to all parameters), one-tag-off variants at every position, wrong counts, random shapes, wrong/foreign/missing objects, "
          "__gc twice; verdict from the declarations in Python. Generated libraries: 0..6 parameters of mixed tags, defaults starting "
          "at every position, default values over zero/non-zero/empty for every kind, class-pointer arguments of the own and of "
-         "another wrapped class (right class, other class, userdata without metatable), overloads incl. same-tag and "
+         "another wrapped class (right class, other class, userdata without metatable), user-chosen metatable names (format "
+         "field, class-level and library-level LUA_metadata_template), classes that register no method (constructors only) and "
+         "are passed as arguments, overloads incl. same-tag and "
          "void/non-void mixes, classes with overloaded "
          "constructors, const/static methods, a namespace. Trusted / modelled-not-verified: Lean kernel; the hand model; the "
          "emulator (written from the Lua 5.3 manual; no real Lua headers or interpreter installed); g++ (which C++ overload the "
@@ -89,6 +98,13 @@ THEOREMS = {
         "Shroud.LuaDispatch.method_on_constructed",
         "Shroud.LuaDispatch.method_on_foreign_object",
         "Shroud.LuaDispatch.gc_runs_destructor_once",
+        # one metatable name per class at every site (luaopen, constructors, object test, class-pointer arguments)
+        "Shroud.LuaDispatch.registry_complete",
+        "Shroud.LuaDispatch.constructed_accepted_by_own_methods",
+        "Shroud.LuaDispatch.constructed_accepted_as_argument",
+        "Shroud.LuaDispatch.constructed_rejected_by_other_name",
+        "Shroud.LuaDispatch.uncreated_name_accepted_nowhere",
+        "Shroud.LuaDispatch.method_on_constructed_named",
         # historical negation witnesses (bodies written before the fix: commits)
         "Shroud.LuaDispatch.single_call_unchecked_before_fix",
         "Shroud.LuaDispatch.single_call_statement_false_before_fix",
@@ -165,8 +181,8 @@ def parse_emit(blk, group, classes=()):
     # class-pointer argument: the userdata of the argument's class at the argument's index
     for m in re.finditer(r'(\w+) = \(\((\w+) \*\) luaL_checkudata\( ?L, (\d+), "([^"]*)"\)\)->(\w+);', blk):
         names[m.group(1)] = ("luaL_checkudata", int(m.group(3)))
-        cn = m.group(4).split(".")[0]
-        objcls[m.group(1)] = (classes.index(cn) + 1) if cn in classes else -1
+        cn = m.group(4)                 # `classes`: the metatable name of every class, by class index
+        objcls[m.group(1)] = (list(classes).index(cn) + 1) if cn in classes else -1
     for m in re.finditer(r"(\w+) = (?:static_cast<[^>]*>\()?\s*(lua_to\w+)\( ?L, (\d+)\)", blk):
         names[m.group(1)] = (m.group(2), int(m.group(3)))
     for m in re.finditer(r"const std::string (\w+)\( ?(lua_to\w+)\( ?L, (\d+)\)\)", blk):
@@ -289,15 +305,35 @@ def parse_body(body, group, classes=()):
     return ("switch %d %s" % (off, " ".join(cases + flags))).rstrip(), emits
 
 
-def locate(group, regs, metas, modreg):
+def class_info(jpath):
+    """Wrapped classes in declaration (pre-order) order from Shroud's JSON dump: name and the format fields
+    LUA_metadata / LUA_class_reg / LUA_ctor_name as the class node holds them after wrapping."""
+    j = json.load(open(jpath))["library"]
+    out = []
+
+    def walk(node):
+        for c in node.get("classes", []):
+            if c.get("wrap", {}).get("lua"):
+                fd = c.get("fmtdict", {})
+                out.append(dict(name=c["name"], meta=fd.get("LUA_metadata"), reg=fd.get("LUA_class_reg"),
+                                ctor=fd.get("LUA_ctor_name")))
+        for ns in node.get("namespaces", []):
+            if ns.get("wrap", {}).get("lua"):
+                walk(ns)
+
+    walk(j)
+    return out
+
+
+def locate(group, regs, metas, modreg, cinfo=()):
     """C function implementing the group, and the metatable name for methods."""
     if group.kind in ("free", "ctor"):
         table = modreg
     else:
         table = None
-        for rn, mt in metas.items():
-            if mt.split(".")[0] == group.cls:
-                table = rn
+        for ci in cinfo:
+            if ci["name"] == group.cls:
+                table = ci["reg"]
     if table is None or table not in regs:
         return None, None
     hits = [c for (n, c) in regs[table] if n == group.luaname]
@@ -338,7 +374,8 @@ def registration_request(jpath):
         for c in node.get("classes", []):
             if not c.get("wrap", {}).get("lua"):
                 continue
-            cls.append("%d@%s" % (I(c["fmtdict"].get("LUA_ctor_name", c["name"])), fns(c.get("functions", []), True)))
+            cls.append("%d~%d@%s" % (I(c["fmtdict"].get("LUA_ctor_name", c["name"])),
+                                     I("meta:" + str(c["fmtdict"].get("LUA_metadata"))), fns(c.get("functions", []), True)))
         scopes.append("%s#%s" % (";".join(cls) or "-", fns(node.get("functions", []), False)))
         for ns in node.get("namespaces", []):
             if ns.get("wrap", {}).get("lua"):
@@ -348,7 +385,7 @@ def registration_request(jpath):
     return "regs " + "/".join(scopes), {v: k for k, v in ids.items()}
 
 
-def check_registration(ctx, lib, d, regs, modreg, drv, stats):
+def check_registration(ctx, lib, d, regs, modreg, drv, stats, sites):
     req, names = registration_request(os.path.join(d, lib.name + ".json"))
     out = drv.run([req])[0]
     ctx.count(1)
@@ -359,7 +396,47 @@ def check_registration(ctx, lib, d, regs, modreg, drv, stats):
 
     parts = out.split(" ")
     model_mod = dec(parts[0])
-    model_cls = [dec(p) for p in parts[1:]]
+    model_cls = [dec(p) for p in parts[1:] if p.startswith("C=")]
+
+    def mname(i):
+        return names[int(i)][5:]            # strip "meta:"
+
+    rpart = [p for p in parts if p.startswith("R=")][0][2:]
+    model_registry = [] if rpart == "-" else [mname(i) for i in rpart.split(",")]
+    model_sites = []
+    for p in parts:
+        if p.startswith("S="):
+            cr, at, de = p[2:].split(":")
+            model_sites.append((None if cr == "-" else mname(cr), mname(at), mname(de)))
+    text = sites["text"]
+    real_registry = re.findall(r'luaL_newmetatable\(L, "([^"]*)"\);', text)
+    cinfo = sites["cinfo"]
+    real_sites = []
+    for ci in cinfo:
+        ctor_funcs = [c for (n, c) in regs.get(modreg, []) if n == ci["ctor"]]
+        meth_funcs = [c for (n, c) in regs.get(ci["reg"], [])]
+        attached = sorted(set(m for f in ctor_funcs for m in re.findall(r'luaL_getmetatable\( ?L, "([^"]*)"\)', sites["funcs"].get(f, ""))))
+        demanded = sorted(set(m for f in meth_funcs
+                              for m in re.findall(r'SH_this = \(\w+ \*\) luaL_checkudata\( ?L, 1, "([^"]*)"\)', sites["funcs"].get(f, ""))))
+        real_sites.append((attached, demanded))
+    stats["meta_sites"] += len(real_registry) + sum(len(a) + len(d_) for a, d_ in real_sites)
+    bad_sites = []
+    if real_registry != model_registry:
+        bad_sites.append({"created in luaopen": real_registry, "model": model_registry})
+    for ci, (cr, at, de), (attached, demanded) in zip(cinfo, model_sites, real_sites):
+        if attached and attached != [at]:
+            bad_sites.append({"class": ci["name"], "attached by constructors": attached, "model": at})
+        if demanded and demanded != [de]:
+            bad_sites.append({"class": ci["name"], "demanded by methods": demanded, "model": de})
+        if ci["meta"] not in (None, at):
+            bad_sites.append({"class": ci["name"], "LUA_metadata of the class": ci["meta"], "model": at})
+    if bad_sites or len(model_sites) != len(cinfo):
+        ctx.tie_broken("lua-metatable-names", {"library": lib.name, "sites": bad_sites[:4]})
+    for ci in cinfo:
+        if ci["meta"] and ci["meta"] != ci["name"] + ".metatable":
+            stats["custom_meta_classes"] += 1
+        if not regs.get(ci["reg"]):
+            stats["empty_method_table_classes"] += 1
     real_mod = [tuple(x) for x in regs.get(modreg, [])]
     real_cls = [[tuple(x) for x in v] for k, v in regs.items() if k != modreg]
     stats["reg_tables"] += 1 + len(real_cls)
@@ -905,18 +982,24 @@ def check_library(ctx, lib, d, emu_o, drv, r, thorough, stats, ok_lean):
                     stats["default_hist"][k2] = stats["default_hist"].get(k2, 0) + 1
     funcs, regs, metas, modreg = split_module(text)
     classes = [c for c, _ in lib.classes]
+    try:
+        cinfo = class_info(os.path.join(d, lib.name + ".json"))
+    except (OSError, ValueError, KeyError):
+        cinfo = []
+    # metatable name of the i-th class as the class node has it: a site naming anything else names no class
+    meta_names = [next((ci["meta"] for ci in cinfo if ci["name"] == c), None) for c in classes]
     located = {}
     gen_reqs, gen_impl, gen_groups = [], [], []
     sanity = []
     for g in lib.groups:
-        cfunc, meta_name = locate(g, regs, metas, modreg)
+        cfunc, meta_name = locate(g, regs, metas, modreg, cinfo)
         key = g.luaname if g.kind in ("free", "ctor") else g.luaname + "@" + g.cls
         if cfunc is None or cfunc not in funcs:
             ctx.tie_broken("lua-registration", "no registered C function for %s (%s) in %s" % (g.luaname, g.kind, lib.name))
             continue
         located[key] = (cfunc, meta_name)
         try:
-            canon, emits = parse_body(funcs[cfunc], g, classes)
+            canon, emits = parse_body(funcs[cfunc], g, meta_names)
         except (ParseError, ValueError, KeyError) as e:
             canon, emits = "unparsed: %s" % e, []
         gen_reqs.append("gen %s %s" % (g.kind, g.enc()))
@@ -933,7 +1016,7 @@ def check_library(ctx, lib, d, emu_o, drv, r, thorough, stats, ok_lean):
     stats["groups"] += len(gen_reqs)
     if drv.available() and ok_lean:
         try:
-            check_registration(ctx, lib, d, regs, modreg, drv, stats)
+            check_registration(ctx, lib, d, regs, modreg, drv, stats, dict(text=_strip_comments(text), funcs=funcs, cinfo=cinfo))
         except (KeyError, ValueError, OSError, IndexError) as e:
             ctx.tie_broken("lua-registration-tables", "%s: %s: %s" % (lib.name, type(e).__name__, e))
     if drv.available() and ok_lean:
@@ -1068,11 +1151,13 @@ def run(ctx):
         "argument-less signatures are unique per name (C++ rejects f() as ambiguous otherwise; hypothesis hz of dispatch_correct; "
         "zero_arg_calls_both_run shows what the emitted code does without it)",
         "names within one registration table are distinct in the generated libraries (lookupReg_later_wins characterises the rest)",
+        "metatable names of different classes are distinct (two classes given the same LUA_metadata accept each other's objects: "
+        "constructed_rejected_by_other_name needs name ≠ other)",
         "which C++ overload the emitted call expression selects is g++'s decision, observed by the oracle",
     ]
     check_tables_ok = None
     stats = dict(groups=0, switch=0, single=0, gen_disagree=0, run_disagree=0, calls=0, matching=0, nonmatching=0,
-                 violations=0, known=0, libraries=0, reg_tables=0, reg_entries=0, gc_twice=0, class_arg_calls_right_class=0, class_arg_calls_wrong_class=0, wide_late_defaults=0, shape_hist={}, arity_hist={}, default_hist={})
+                 violations=0, known=0, libraries=0, reg_tables=0, reg_entries=0, meta_sites=0, custom_meta_classes=0, empty_method_table_classes=0, gc_twice=0, class_arg_calls_right_class=0, class_arg_calls_wrong_class=0, wide_late_defaults=0, shape_hist={}, arity_hist={}, default_hist={})
     d0 = common.scratch()
     try:
         emu_o = build_emulator(d0)
@@ -1110,6 +1195,8 @@ def run(ctx):
         ctx.tie_broken("lua-generator", "default values do not cover zero/non-zero for every kind: %s" % stats["default_hist"])
     if stats["libraries"] and not (stats["class_arg_calls_right_class"] and stats["class_arg_calls_wrong_class"]):
         ctx.tie_broken("lua-generator", "no call with a class-pointer argument (right and wrong class) was driven")
+    if stats["libraries"] and not (stats["custom_meta_classes"] and stats["empty_method_table_classes"]):
+        ctx.tie_broken("lua-generator", "no class with a user-chosen metatable name / with an empty method table was generated")
     if stats["libraries"] and stats["wide_late_defaults"] == 0:
         ctx.tie_broken("lua-generator", "no function with >= 5 parameters and >= 2 defaults starting at position >= 4 was generated")
 
